@@ -383,24 +383,24 @@ impl Reply {
         ensures
             res is Ok ==> final(reader).remaining@.len() <= old(reader).remaining@.len(),
             res is Ok ==> is_prefix(old(reader).log@, final(reader).log@),
-            res is Ok ==> load_reply_read_post(seg_of(old(reader).log@, final(reader).log@), res),    // OBL:C08.load_reply.read
+            res is Ok ==> load_reply_read_post(seg_of(old(reader).log@, final(reader).log@), res),    // OBL:C08+C04.load_reply.read
 //@loop 1
             invariant
                 is_prefix(old(reader).log@, reader.log@),
                 reader.remaining@.len() <= old(reader).remaining@.len(),
-                errors@ =~= errors_of(seg_of(old(reader).log@, reader.log@)),             // OBL:C08.load_reply.errors_exact_in_order
-                all_parsed(seg_of(old(reader).log@, reader.log@)),                        // OBL:C08.load_reply.no_error_skipped
-                this is Some ==> (this == Some(Reply::Ok) && has_ok_in_results(seg_of(old(reader).log@, reader.log@)) && !has_severity_error(errors@)), // OBL:C08.load_reply.ok_only_without_error_severity
+                errors@ =~= errors_of(seg_of(old(reader).log@, reader.log@)),             // OBL:C08+C04.load_reply.errors_exact_in_order
+                all_parsed(seg_of(old(reader).log@, reader.log@)),                        // OBL:C08+C04.load_reply.no_error_skipped
+                this is Some ==> (this == Some(Reply::Ok) && has_ok_in_results(seg_of(old(reader).log@, reader.log@)) && !has_severity_error(errors@)), // OBL:C08+C04.load_reply.ok_only_without_error_severity
             decreases reader.remaining@.len(),                                            // OBL:C14.load_reply.terminates
 //@loop 2
                         invariant
                             is_prefix(old(reader).log@, reader.log@),
                             reader.remaining@.len() <= old(reader).remaining@.len(),
-                            errors@ =~= errors_of(seg_of(old(reader).log@, reader.log@)),             // OBL:C08.load_reply.errors_exact_in_order_inner
-                            all_parsed(seg_of(old(reader).log@, reader.log@)),                        // OBL:C08.load_reply.no_error_skipped_inner
+                            errors@ =~= errors_of(seg_of(old(reader).log@, reader.log@)),             // OBL:C08+C04.load_reply.errors_exact_in_order_inner
+                            all_parsed(seg_of(old(reader).log@, reader.log@)),                        // OBL:C08+C04.load_reply.no_error_skipped_inner
                             has_results(seg_of(old(reader).log@, reader.log@)),
                             reader.remaining@.len() <= rem_at_results,
-                            this is Some ==> (this == Some(Reply::Ok) && has_ok_in_results(seg_of(old(reader).log@, reader.log@)) && !has_severity_error(errors@)), // OBL:C08.load_reply.ok_only_without_error_severity_inner
+                            this is Some ==> (this == Some(Reply::Ok) && has_ok_in_results(seg_of(old(reader).log@, reader.log@)) && !has_severity_error(errors@)), // OBL:C08+C04.load_reply.ok_only_without_error_severity_inner
                         decreases reader.remaining@.len(),                                            // OBL:C14.load_reply.terminates_inner
 //@before /let end = tag\.to_end\(\);/
                     let ghost rem_at_results = reader.remaining@.len();
@@ -408,14 +408,14 @@ impl Reply {
 //@extract id=load_reply_into_result file=netconf/src/message/rpc/operation/junos/load_configuration.rs impl=/impl IntoResult for Reply/ fn=into_result rules=R1 vis=pub
 //@sig pub fn into_result(self) -> (res: Result<(), crate::Error>)
 //@contract
-        ensures match self { Reply::Ok => res is Ok, Reply::Errs(errs) => res == Err::<(), crate::Error>(crate::Error::RpcError(errs)) },  // OBL:C08.load_reply.into_result
+        ensures match self { Reply::Ok => res is Ok, Reply::Errs(errs) => res == Err::<(), crate::Error>(crate::Error::RpcError(errs)) },  // OBL:C08+C04.load_reply.into_result
 //@end
 }
 pub proof fn lemma_c08_load_reply(seg: Seq<Item>, reply: Reply, r: Result<(), crate::Error>)
     requires
         load_reply_read_post(seg, Ok(reply)),
         match reply { Reply::Ok => r is Ok, Reply::Errs(errs) => r == Err::<(), crate::Error>(crate::Error::RpcError(errs)) },
-    ensures c08(seg, has_ok_in_results(seg), r),                                         // OBL:C08.load_reply.property
+    ensures c08(seg, has_ok_in_results(seg), r),                                         // OBL:C08+C04.load_reply.property
 {
 }
 } // mod load_configuration
